@@ -224,7 +224,7 @@ func (g *Gen) newRef(st *State) string {
 }
 
 func (g *Gen) env(st *State, vars map[string]Val) *Env {
-	return &Env{m: g.m, vars: vars, st: st, old: g.entry, tpkg: g.fn.Pkg.Pkg, spkg: g.fn.Pkg, hget: g.heapGet}
+	return &Env{m: g.m, vars: vars, st: st, old: g.entry, tpkg: g.fn.Pkg.Pkg, spkg: g.fn.Pkg, hget: g.heapGet, gconst: g.constGlobal}
 }
 
 // ---- type constraints ----
@@ -468,6 +468,9 @@ func (g *Gen) analyseLoops() {
 			for _, in := range b.Instrs {
 				if _, ok := in.(*ssa.DebugRef); ok {
 					continue
+				}
+				if _, ok := in.(*ssa.Phi); ok {
+					continue // a phi is positioned at the variable's declaration, not in the loop
 				}
 				if p := in.Pos(); p.IsValid() && p < li.minPos {
 					li.minPos = p
@@ -748,11 +751,32 @@ func (g *Gen) expandMod(pat string) []string {
 	if pat == "bytes" {
 		return []string{g.m.compSliceHeap("Int"), "alloc"}
 	}
+	if strings.HasPrefix(pat, "C_") {
+		if _, ok := g.m.comps[pat]; !ok {
+			switch pat[2:] {
+			case "Str", "Int", "Bool", "Slice":
+				g.m.compCell(pat[2:])
+			}
+		}
+	}
 	if strings.HasPrefix(pat, "H_") {
 		if _, ok := g.m.comps[pat]; !ok {
 			switch pat[2:] {
 			case "Str", "Int", "Bool":
 				g.m.compSliceHeap(pat[2:])
+			}
+		}
+	}
+	if _, ok := g.m.comps[pat]; !ok && strings.HasPrefix(pat, "F_") {
+		// a field component that no code has touched yet: F_<struct sort>_<field>
+		for ss, st := range g.m.structs {
+			if strings.HasPrefix(pat, "F_"+ss+"_") {
+				f := pat[len("F_"+ss+"_"):]
+				for i := 0; i < st.NumFields(); i++ {
+					if fieldName(st, i) == f {
+						g.m.compField(ss, f, g.m.sortOf(st.Field(i).Type()))
+					}
+				}
 			}
 		}
 	}
